@@ -204,6 +204,10 @@ func (m *Encoder) encodeValue(v reflect.Value, hint Type) error {
 		return v.Addr().Interface().(Marshaler).MarshalIon(m.w)
 	}
 	if t.Implements(marshalerType) {
+		if (t.Kind() == reflect.Ptr || t.Kind() == reflect.Interface) && v.IsNil() {
+			// Like any other nil pointer; calling MarshalIon on it would dereference nil.
+			return m.w.WriteNull()
+		}
 		return v.Interface().(Marshaler).MarshalIon(m.w)
 	}
 
